@@ -653,7 +653,9 @@ fn gen_replica(_prop: &str, rng: &mut Rng) -> (Config, Vec<Op>) {
     for i in 0..n {
         let r = loop {
             // C07 does not bound ratings: a few runs use values far beyond 2^31
-            let r = if big_ratings { (1usize << 31) - 2 + rng.below(8) + if rng.chance(1, 2) { rng.below(1 << 40) } else { 0 } } else if rng.chance(1, 4) { rng.below(1 << 31) } else { rng.below(64) };
+            // (the relative order of two hits must be consistent whatever the ratings are, so the
+            // replica scenario — and only it — also draws from the whole range of usize)
+            let r = if big_ratings && rng.chance(1, 3) { rng.next_u64() as usize } else if big_ratings { (1usize << 31) - 2 + rng.below(8) + if rng.chance(1, 2) { rng.below(1 << 40) } else { 0 } } else if rng.chance(1, 4) { rng.below(1 << 31) } else { rng.below(64) };
             if !ratings.contains(&r) {
                 break r;
             }
